@@ -106,6 +106,25 @@ pub struct Gen<T> {
     v: Option<T>,
 }
 
+/// A record whose body is delegated to a primitive (`@Dp(n: ..) <body>`): the only way a
+/// primitive is written by a printer that has already written attributes.
+#[derive(Form, Debug, Clone, PartialEq)]
+pub struct Dp<T> {
+    #[form(header)]
+    n: i32,
+    #[form(body)]
+    inner: T,
+}
+
+/// Same, with the attribute written by `#[form(attr)]`.
+#[derive(Form, Debug, Clone, PartialEq)]
+pub struct Da<T> {
+    #[form(attr)]
+    n: String,
+    #[form(body)]
+    inner: T,
+}
+
 fn strs() -> Vec<String> {
     crate::gen::text_atoms().into_iter().map(|s| s.to_string()).collect()
 }
@@ -309,6 +328,28 @@ pub fn run_all(r: &mut Runner) {
             },
         ],
     );
+    fn dp<T: Clone>(xs: &[T]) -> Vec<Dp<T>> {
+        xs.iter().map(|x| Dp { n: 1, inner: x.clone() }).collect()
+    }
+    fn da<T: Clone>(xs: &[T]) -> Vec<Da<T>> {
+        xs.iter().map(|x| Da { n: "a".to_string(), inner: x.clone() }).collect()
+    }
+    r.run::<Dp<i32>>("Dp<i32>", dp(&[0, -1, i32::MAX]));
+    r.run::<Dp<i64>>("Dp<i64>", dp(&[i64::MIN, i64::MAX]));
+    r.run::<Dp<u32>>("Dp<u32>", dp(&[0, u32::MAX]));
+    r.run::<Dp<u64>>("Dp<u64>", dp(&[u64::MAX]));
+    r.run::<Dp<f64>>("Dp<f64>", dp(&[0.0, -1.5, 1e300, f64::MIN_POSITIVE]));
+    r.run::<Dp<bool>>("Dp<bool>", dp(&[true, false]));
+    r.run::<Dp<BigInt>>("Dp<BigInt>", dp(&[two64.clone(), -two64.clone()]));
+    r.run::<Dp<BigUint>>("Dp<BigUint>", dp(&[BigUint::from(u64::MAX) + 1u32]));
+    r.run::<Dp<String>>("Dp<String>", dp(&["".to_string(), "a".to_string(), "a b".to_string(), "true".to_string(), "\n".to_string()]));
+    r.run::<Dp<Blob>>("Dp<Blob>", dp(&[Blob::from_vec(vec![]), Blob::from_vec(vec![0, 255])]));
+    r.run::<Dp<Option<i32>>>("Dp<Option<i32>>", dp(&[None, Some(1)]));
+    r.run::<Dp<Plain>>("Dp<Plain>", dp(&[p(1, "a"), p(-1, "a b")]));
+    r.run::<Da<i32>>("Da<i32>", da(&[0, -1]));
+    r.run::<Da<f64>>("Da<f64>", da(&[1.5, -1e-300]));
+    r.run::<Da<bool>>("Da<bool>", da(&[true]));
+    r.run::<Da<Vec<i32>>>("Da<Vec<i32>>", da(&[vec![], vec![1], vec![1, 2]]));
     r.run::<Gen<i32>>("Gen<i32>", vec![Gen { k: 0, v: None }, Gen { k: -1, v: Some(1) }]);
     r.run::<Gen<String>>("Gen<String>", vec![Gen { k: "".into(), v: None }, Gen { k: "a b".into(), v: Some("a".into()) }]);
     r.run::<Gen<Plain>>("Gen<Plain>", vec![Gen { k: p(1, "a"), v: None }, Gen { k: p(1, "a b"), v: Some(p(2, "")) }]);
